@@ -245,6 +245,23 @@ class CallMixin:
                         c = self.contracts[name[5:]]
                         return self.apply_contract(c, [V("ref", r, cls="function")] + list(args) if c.params and c.params[0][0] == "__closure__"
                                                    else args, kwargs, st, node)
+            # a nested def without a contract whose closure object is pinned by the path condition: executed in place, its free variables
+            # read from the closure's cells
+            for name, sid in list(STATIC.items()):
+                if name.startswith("code:") and name[5:] in self.repo.qual and name[5:] not in self.contracts and ".<locals>." in name[5:]:
+                    if entails(hyps, z3.And(isref, code == sid)):
+                        q = name[5:]
+                        fn = self.repo.qual[q]
+                        params = {a.arg for a in fn.args.posonlyargs + fn.args.args + fn.args.kwonlyargs} | \
+                            ({fn.args.vararg.arg} if fn.args.vararg else set()) | ({fn.args.kwarg.arg} if fn.args.kwarg else set())
+                        outer = self.repo.qual.get(q.rsplit(".<locals>.", 1)[0])
+                        outer_locals = ({n.id for n in ast.walk(outer) if isinstance(n, ast.Name) and isinstance(n.ctx, ast.Store)} |
+                                        {a.arg for a in outer.args.posonlyargs + outer.args.args + outer.args.kwonlyargs} |
+                                        {n.name for n in ast.walk(outer) if isinstance(n, ast.FunctionDef) and n is not outer}) if outer is not None else set()
+                        free = {n.id for n in ast.walk(fn) if isinstance(n, ast.Name) and isinstance(n.ctx, ast.Load)} - params
+                        captured = {n: V("val", st.read(f"function.cell.{n}", r, Val)) for n in sorted(free & outer_locals)}
+                        st.log.append(("dispatch", q, getattr(node, "lineno", 0), r))
+                        return self.inline_call(q, args, kwargs, st, node, fn_mod=(q.split(".")[0], fn), captured=captured)
         raise Unsupported(f"{self.where(node)}: call of a computed callee {fv!r}")
 
     def call_lambda(self, fv, args, kwargs, st, node):
@@ -375,6 +392,7 @@ class CallMixin:
         if captured:
             env.update(captured)        # a local closure reads the variables of its defining scope
         saved = (st.env, self.cur_fn, self.cur_mod, self.loop_ordinals, self.cur_contract, st.yielded)
+        caller_loop_ghosts = {k: v for k, v in st.ghost.items() if k.startswith("loop") and k[4:5].isdigit()}
         try:
             self.cur_mod = mod
             for i, n in enumerate(names):
@@ -405,6 +423,12 @@ class CallMixin:
             self.cur_fn = key
             self.cur_contract = None
             self.loop_ordinals = {id(l): i for i, l in enumerate(self.repo.loops(fn))}
+            if self.loop_ordinals and getattr(self, "auto_loop_specs", None) is not None:
+                # a helper without a contract whose loops have a shape the property module knows an invariant for (e.g. "pop down to the mark")
+                auto = self.auto_loop_specs(key, fn)
+                if auto:
+                    self.cur_contract = Contract(key, loops=auto, props=["no-frame"])
+                    self.cur_contract.auto_inline = True
             is_gen = any(isinstance(n, (ast.Yield, ast.YieldFrom)) for n in ast.walk(fn))
             if is_gen:
                 st.yielded = z3.Empty(SeqV)
@@ -416,6 +440,11 @@ class CallMixin:
             out = []
             for f in finals:
                 f.env = saved[0] if f is st else dict(saved[0])
+                # ghost markers of the caller's loops (keyed by loop ordinal) must not be overwritten by the helper's own loops
+                if caller_loop_ghosts or any(k.startswith("loop") and k[4:5].isdigit() for k in f.ghost):
+                    g = {k: v for k, v in f.ghost.items() if not (k.startswith("loop") and k[4:5].isdigit())}
+                    g.update(caller_loop_ghosts)
+                    f.ghost = g
                 if f.status == "raise":
                     out.append((f, None))
                     continue
@@ -538,7 +567,8 @@ class CallMixin:
         for j, r in enumerate(c.requires):
             goal = self.spec_eval_in(r, st, env, None, goal=True)
             self.obligations.append(Obligation(f"{self.cur_fn}:pre@call:{c.qual}#{j}@{getattr(node, 'lineno', 0)}", "pre@call", st.hyps(), goal,
-                                               where=self.where(node), meta={"clause": r, "callee": c.qual}))
+                                               where=self.where(node),
+                                               meta=dict({"clause": r, "callee": c.qual}, **({"unannotated_loop": True} if st.ghost.get("unannotated_loop") else {}))))
             st.assume(goal)
         for eff in c.effects:
             st.log.append(("effect", eff, c.qual, getattr(node, "lineno", 0)))
